@@ -224,7 +224,8 @@ Section Inv.
     t_done : forall o, (In (ESkip o) tr \/ In (ELaunchFail o) tr \/ exists rc, In (EFinish o rc) tr) -> In o co;
     t_succ : forall o, o < n -> st o = SUCCEEDED -> In (EFinish o 0%N) tr;
     t_fin_state : forall o rc, In (EFinish o rc) tr -> (rc = 0%N <-> st o = SUCCEEDED);
-    t_skip : forall o, o < n -> (st o = SKIPPED <-> In (ESkip o) tr)
+    t_skip : forall o, o < n -> (st o = SKIPPED <-> In (ESkip o) tr);
+    t_compl : forall o, In o co -> In (ESkip o) tr \/ In (ELaunchFail o) tr \/ exists rc, In (EFinish o rc) tr
   }.
   Definition TInv (s : xstate) (X : list nat) : Prop :=
     TInvP (syncs s) (procs s) (completed s) (ost s) (trace s) X.
